@@ -506,7 +506,7 @@ impl<'a> GeneratorState<'a> {
                             if let Expr::Integer(8) = *rhs2 {
                                 if let Expr::Identifier(var, sub) = *lhs2 {
                                     if let Expr::Nothing = *sub {
-                                        let v = self.compiler_state.get_variable(var.as_str());
+                                        let v = self.compiler_state.get_variable_or_error(var.as_str(), pos)?;
                                         if v.var_type == VariableType::CharPtr && v.var_const {
                                             if self.acc_in_use {
                                                 self.sasm(PHA)?;
@@ -555,7 +555,7 @@ impl<'a> GeneratorState<'a> {
                             if let Expr::Integer(8) = *rhs2 {
                                 if let Expr::Identifier(var, sub) = *lhs2 {
                                     if let Expr::Nothing = *sub {
-                                        let v = self.compiler_state.get_variable(var.as_str());
+                                        let v = self.compiler_state.get_variable_or_error(var.as_str(), pos)?;
                                         if v.var_type == VariableType::CharPtr && v.var_const {
                                             if self.acc_in_use {
                                                 self.sasm(PHA)?;
